@@ -1292,8 +1292,8 @@ void rtosc::path_search(const rtosc::Ports& root,
             types[pos]    = 'b';
             if(p.metadata && *p.metadata) {
                 args[pos].b.data = (unsigned char*) p.metadata;
-                auto tmp = rtosc::Port::MetaContainer(p.metadata);
-                args[pos++].b.len  = tmp.length();
+                //(meta() skips the leading ':', which length() expects)
+                args[pos++].b.len  = p.meta().length();
             } else {
                 args[pos].b.data = (unsigned char*) NULL;
                 args[pos++].b.len  = 0;
